@@ -953,6 +953,10 @@ func verifKeys(t *testing.T, tier string) {
 		// a file configuration key may contain '/' anywhere but at the start
 		{"cpu/model", ".config"},
 		{".config", "cpu/model", "/size"},
+		// several sub-name keys taken out of a .fullname that stays in the residue
+		{"/gomaxprocs", "/size"},
+		{"/size", "/gomaxprocs", "goos"},
+		{"/a", "/gomaxprocs", "/sizeclass"},
 	}
 	streams := 60
 	if tier == "thorough" {
@@ -1037,6 +1041,14 @@ func verifKeys(t *testing.T, tier string) {
 					}
 				}
 				residue := pp.Residue()
+				// a caller may list the fields before the first result arrives (when the
+				// group fields .config / .fullname residue are still empty)
+				if rnd(2) == 0 {
+					for _, p := range projs {
+						p.FlattenedFields()
+					}
+					residue.FlattenedFields()
+				}
 				nres := 5 + rnd(5)
 				var results []*benchfmt.Result
 				var keys [][]Key    // per result, per projection (+ residue last)
@@ -1081,6 +1093,34 @@ func verifKeys(t *testing.T, tier string) {
 								bad("set %q order %v projection %d %v: keys equal=%v but projected values equal=%v for results #%d [%s] (%v) and #%d [%s] (%v)", set, perm, pi, allFields[pi], keys[i][pi] == keys[j][pi], same, i, desc(i), vi, j, desc(j), vj)
 							}
 						}
+					}
+				}
+				// 1b. the flattened field list is the leaves of the field tree, whenever it is asked for
+				for pi := 0; pi <= len(projs); pi++ {
+					p := residue
+					if pi < len(projs) {
+						p = projs[pi]
+					}
+					var leaves []*Field
+					var collect func(fs []*Field)
+					collect = func(fs []*Field) {
+						for _, f := range fs {
+							if f.IsTuple {
+								collect(f.Sub)
+							} else {
+								leaves = append(leaves, f)
+							}
+						}
+					}
+					collect(p.Fields())
+					n++
+					flat := p.FlattenedFields()
+					same := len(flat) == len(leaves)
+					for k := 0; same && k < len(flat); k++ {
+						same = flat[k] == leaves[k]
+					}
+					if !same {
+						bad("set %q order %v projection %d: FlattenedFields lists %d fields %v, the field tree has %d leaves %v", set, perm, pi, len(flat), flat, len(leaves), leaves)
 					}
 				}
 				// 2. a key returns exactly the extracted values
